@@ -155,7 +155,8 @@ class Env:
         return s.ret(st, payload(v))
 
     def p_Option__unwrap_or(s, M, st, th, ci, a):
-        return s.ret(st, payload(a[0]) if a[0].variant == 'Some' else a[1])
+        if a[0].variant == 'Some': return s.drop_then_ret(M, st, th, [a[1]], payload(a[0]))
+        return s.ret(st, a[1])
 
     def p_Option__unwrap_or_default(s, M, st, th, ci, a):
         if a[0].variant == 'Some': return s.ret(st, payload(a[0]))
@@ -184,35 +185,39 @@ class Env:
         o = s.tgt(M, st, a[0])
         return s.ret(st, some(a[0].field(('Some', 0))) if o.variant == 'Some' else NONE)
 
+    # NB an argument that is not used (the closure of a combinator applied to None, the default when the value is there) is DROPPED:
+    # it may own captured objects
     def p_Option__ok_or(s, M, st, th, ci, a):
-        return s.ret(st, ok(payload(a[0])) if a[0].variant == 'Some' else err(a[1]))
+        if a[0].variant == 'Some': return s.drop_then_ret(M, st, th, [a[1]], ok(payload(a[0])))
+        return s.ret(st, err(a[1]))
 
     def p_Option__map(s, M, st, th, ci, a):
-        if a[0].variant == 'None': return s.ret(st, NONE)
+        if a[0].variant == 'None': return s.drop_then_ret(M, st, th, [a[1]], NONE)
         return s.call_then(M, st, th, a[1], [payload(a[0])], 'wrap', ('Option', 'Some'))
 
     def p_Option__map_or(s, M, st, th, ci, a):
-        if a[0].variant == 'None': return s.ret(st, a[1])
+        if a[0].variant == 'None': return s.drop_then_ret(M, st, th, [a[2]], a[1])
+        if isinstance(a[1], Agg) and a[1] is not UNIT: return None          # the unused default owns something: run the reference body (shim) for the exact drop order
         return s.call_then(M, st, th, a[2], [payload(a[0])], 'ident', None)
 
     def p_Option__and_then(s, M, st, th, ci, a):
-        if a[0].variant == 'None': return s.ret(st, NONE)
+        if a[0].variant == 'None': return s.drop_then_ret(M, st, th, [a[1]], NONE)
         return s.call_then(M, st, th, a[1], [payload(a[0])], 'ident', None)
 
     def p_Option__ok_or_else(s, M, st, th, ci, a):
-        if a[0].variant == 'Some': return s.ret(st, ok(payload(a[0])))
+        if a[0].variant == 'Some': return s.drop_then_ret(M, st, th, [a[1]], ok(payload(a[0])))
         return s.call_then(M, st, th, a[1], [], 'wrap', ('Result', 'Err'))
 
     def p_Option__unwrap_or_else(s, M, st, th, ci, a):
-        if a[0].variant == 'Some': return s.ret(st, payload(a[0]))
+        if a[0].variant == 'Some': return s.drop_then_ret(M, st, th, [a[1]], payload(a[0]))
         return s.call_then(M, st, th, a[1], [], 'ident', None)
 
     def p_Option__is_some_and(s, M, st, th, ci, a):
-        if a[0].variant == 'None': return s.ret(st, False)
+        if a[0].variant == 'None': return s.drop_then_ret(M, st, th, [a[1]], False)
         return s.call_then(M, st, th, a[1], [payload(a[0])], 'ident', None)
 
     def p_Option__filter(s, M, st, th, ci, a):
-        if a[0].variant == 'None': return s.ret(st, NONE)
+        if a[0].variant == 'None': return s.drop_then_ret(M, st, th, [a[1]], NONE)
         tmp = st.alloc(payload(a[0]))
         return s.call_then(M, st, th, a[1], [Ref(tmp)], 'filter', (tmp,))
 
@@ -259,12 +264,12 @@ class Env:
 
     def p_Result__and_then(s, M, st, th, ci, a):
         v, f = a
-        if v.variant == 'Err': return s.ret(st, v)
+        if v.variant == 'Err': return s.drop_then_ret(M, st, th, [f], v)
         return s.call_then(M, st, th, f, [payload(v)], 'ident', None)
 
     def p_Result__unwrap_or_else(s, M, st, th, ci, a):
         v, f = a
-        if v.variant == 'Ok': return s.ret(st, payload(v))
+        if v.variant == 'Ok': return s.drop_then_ret(M, st, th, [f], payload(v))
         return s.call_then(M, st, th, f, [payload(v)], 'ident', None)
 
     def p_PoisonError__into_inner(s, M, st, th, ci, a): return s.ret(st, a[0].f[0])
